@@ -80,6 +80,9 @@ UNIVERSE = [
     _u('2', False, 'wl_display', 1, 'delete_id', [['int', 4]]),
     _u('1', True, 'wl_surface', 4, 'set_buffer_scale', [['int', 1]]),
     _u('2', True, 'wl_compositor', 3, 'create_surface', [['new', 'wl_surface', 4]]),
+    # negative values (appended: other checks address the messages above by position)
+    _u('2', True, 'wl_surface', 4, 'damage', [['int', -5], ['int', -10], ['int', 2], ['int', 3]]),
+    _u('1', False, 'wl_pointer', 6, 'motion', [['int', 103], ['fixed', -1280], ['fixed', 0]]),
 ]
 
 
@@ -253,10 +256,13 @@ OBJ_ATOMS = [
     ('[[wl_surface ! 4b], 4b]', lambda o: o[0] == 'wl_surface' or o[1:] == (4, 1)),
     ('wl_display', o_type('wl_display')),
     ('1a', lambda o: o[1:] == (1, 0)),
+    # the text before and after the `*` would have to overlap: `wl_surface` is not `wl_` + anything + `_surface`
+    ('wl_*_surface', o_type('wl_*_surface')),
 ]
 # which object atoms are "type-like" (a bare type against a typed nil is not decided by the documentation)
 TYPE_LIKE = {'wl_surface', 'wl_*', '*', 'wl_surface@', '[wl_surface, 3]', '[wl_* ! wl_surface]', 'wl_*face', '*surface',
-             'x*', 'xdg_*', '', 'wl_*fac', '*_surf', 'wl_s*e', '[6, [wl_* ! wl_pointer]]', '[[wl_surface ! 4b], 4b]', 'wl_display'}
+             'x*', 'xdg_*', '', 'wl_*fac', '*_surf', 'wl_s*e', '[6, [wl_* ! wl_pointer]]', '[[wl_surface ! 4b], 4b]', 'wl_display',
+             'wl_*_surface'}
 
 # name atoms: (text or None when the `.name` part is absent, predicate, names the pseudo messages explicitly?)
 NAME_ATOMS = [
@@ -276,6 +282,8 @@ NAME_ATOMS = [
     ('*_scale', wild('*_scale'), False),
     ('[commit, [set_* ! set_title]]', lambda n: n == 'commit' or (n.startswith('set_') and n != 'set_title'), False),
     ('[[* ! commit], commit]', ALL, False),
+    ('comm*mit', wild('comm*mit'), False),
+    ('set_*_title', wild('set_*_title'), False),
 ]
 
 
@@ -380,6 +388,13 @@ ARG_ATOMS = [
     # more items than the message has arguments: one argument may satisfy several items
     ('(scale=, 2)', argl([a_named('scale'), a_int(2)])),
     ('(id=, wl_surface, surface=)', argl([a_named('id'), a_word('wl_surface'), a_named('surface')])),
+    # negative whole numbers; alternatives of different kinds that are spelled (and printed) alike
+    ('(x=-5)', argl([a_and(a_named('x'), a_int(-5))])),
+    ('(-10)', argl([a_int(-10)])),
+    ('(! -5)', argl([], [a_int(-5)])),
+    ('(["wl_seat", wl_seat])', argl([a_or(a_str('wl_seat'), a_word('wl_seat'))])),
+    ('([wl_seat, "wl_seat"])', argl([a_or(a_word('wl_seat'), a_str('wl_seat'))])),
+    ('(pres*ssed)', argl([a_word('pres*ssed')])),
 ]
 
 
